@@ -79,8 +79,8 @@ def gram_passes(pid, tier):
         P.append(('NT2 T2 R<=3 W<=4, inputs<=4 over terminals + space, newline and a foreign byte (positions in the trace, lexer trace lines)', base + ['--nt', '2', '--t', '2', '--err', '0', '--maxR', '2' if q else '3', '--maxW', '4', '--maxlen', '4', '--rich']))
         P.append(('error-rule frames NT2 T2, strings<=4', base + ['--nt', '2', '--t', '2', '--err', '1', '--maxR', '2' if q else '3', '--maxlen', '4']))
     if pid == 'C08':
-        P.append(('error-rule frames NT2 T2 R<=%d, strings<=%d' % (3 if q else 4, 4 if q else 5), base + ['--nt', '2', '--t', '2', '--err', '1', '--maxlen', '4' if q else '5'] + (['--maxR', '3'] if q else [])))
-        P.append(('error-rule frames NT2 T3, strings<=%d' % (4 if q else 5), base + ['--nt', '2', '--t', '3', '--err', '1', '--maxlen', '4' if q else '5']))
+        P.append(('error-rule frames NT2 T2 R<=%d, strings<=%d' % (3 if q else 4, 4 if q else 8), base + ['--nt', '2', '--t', '2', '--err', '1', '--maxlen', '4' if q else '8'] + (['--maxR', '3'] if q else [])))
+        P.append(('error-rule frames NT2 T3, strings<=%d' % (4 if q else 6), base + ['--nt', '2', '--t', '3', '--err', '1', '--maxlen', '4' if q else '6']))
         P.append(('seed grammars', base + ['--maxlen', '5', '--max-per-frame', '0', '--seeds', os.path.join(VERIF, 'seeds', 'gram_seeds.txt')]))
     if pid == 'C18':
         P.append(('custom-lexer frames NT2 T2 (R<=2; with and without an error rule), inputs<=%d over {x,space,\\n}, every script of lexer answers' % (4 if q else 5), base + ['--custom', '1', '--nt', '2', '--t', '2', '--err', '2', '--maxlen', '4' if q else '5'] + (['--maxR', '2'] if q else [])))
@@ -306,8 +306,8 @@ def rx_passes(pid, tier):
                   ['--mode', 'c04w', '--setsize', '6', '--pool', '0' if q else '1', '--maxlen', '3' if q else '4']))
         return P
     if pid == 'C10':
-        return [('3 term sets (single-char, multi-char, multi-line lexemes) x 2 grammars (token list; statements with an error rule) x inputs<=%d over {x,q,;,space,\\t,\\r,\\n} x 3 whitespace option combinations' % (5 if q else 7),
-                 ['--mode', 'c10', '--maxlen', '5' if q else '7'])]
+        return [('3 term sets (single-char, multi-char, multi-line lexemes) x 2 grammars (token list; statements with an error rule) x inputs<=%d over {x,q,;,space,\\t,\\r,\\n} x 3 whitespace option combinations' % (5 if q else 8),
+                 ['--mode', 'c10', '--maxlen', '5' if q else '8'])]
     if pid == 'C17':
         P = [('every string of length<=%d over a 21-symbol pattern alphabet offered as a pattern' % (4 if q else 5), ['--mode', 'c17', '--maxlen', '4' if q else '5'])]
         P.append(('every string of length<=%d over the 10-symbol set alphabet {a [ ] - ^ \\\\ 0x01 0x7f x 2}' % (6 if q else 7), ['--mode', 'c17', '--pool', '2', '--maxlen', '6' if q else '7']))
@@ -438,10 +438,10 @@ def run_progs(pid, rep, specs, deadline_s):
 
 PROG_SPECS = {
  'C19': lambda q: [dict(name='c19', src='c19_helpers.cpp', label='helper functors: all positions x arities 1..9 x value categories', flags=['-O0'])],
- 'C13': lambda q: [dict(name='c13', src='c13_context.cpp', args=[4 if q else 6], label='16 >=/>>= assignments x 10 call forms (every context_parse/parse overload) x inputs<=%d over {a,b,foreign}' % (4 if q else 6), compilers=['g++'] if q else ['g++', 'clang++'])],
- 'C14': lambda q: [dict(name='c14', src='c14_values.cpp', args=[4 if q else 6], label='instrumented copyable value type, inputs<=%d over 7 bytes' % (4 if q else 6), compilers=['g++'] if q else ['g++', 'clang++']),
-                   dict(name='c14n', src='c14_values.cpp', args=[4 if q else 5], flags=['-DMOVE_NOT_NOEXCEPT'], label='copyable value type whose move constructor is not noexcept, inputs<=%d' % (4 if q else 5), compilers=['g++']),
-                   dict(name='c14m', src='c14_values.cpp', args=[3 if q else 5], flags=['-DMOVE_ONLY'], label='move-only value type (compile probe + run), inputs<=%d' % (3 if q else 5), compilers=['g++', 'clang++'])],
+ 'C13': lambda q: [dict(name='c13', src='c13_context.cpp', args=[4 if q else 9], label='16 >=/>>= assignments x 10 call forms (every context_parse/parse overload) x inputs<=%d over {a,b,foreign}' % (4 if q else 9), compilers=['g++'] if q else ['g++', 'clang++'])],
+ 'C14': lambda q: [dict(name='c14', src='c14_values.cpp', args=[4 if q else 8], label='instrumented copyable value type, inputs<=%d over 7 bytes' % (4 if q else 8), compilers=['g++'] if q else ['g++', 'clang++']),
+                   dict(name='c14n', src='c14_values.cpp', args=[4 if q else 7], flags=['-DMOVE_NOT_NOEXCEPT'], label='copyable value type whose move constructor is not noexcept, inputs<=%d' % (4 if q else 7), compilers=['g++']),
+                   dict(name='c14m', src='c14_values.cpp', args=[3 if q else 7], flags=['-DMOVE_ONLY'], label='move-only value type (compile probe + run), inputs<=%d' % (3 if q else 7), compilers=['g++', 'clang++'])],
 }
 PROG_RULE = {
  'C19': 'Complete enumeration (the space is finite): _e1.._e9 x arity N..9; construct<T,I> x I<=arity<=9; push_back<C,A> and emplace_back<C,A> x all 72 ordered position pairs x every arity max(C,A)..9; val / create x arity 0..9; value categories lvalue, const lvalue, rvalue, move-only rvalue. Every other argument is a Poison object without copy, move or conversions (any use fails to compile); results are checked by type (static_assert), by address identity and by the unchanged data() pointer of the returned container. Compiled and run with g++ and clang++.',
@@ -502,7 +502,7 @@ def c07_one(gname, n, comp, work):
 
 def run_c07(pid, tier, rep, deadline_s):
     q = tier == 'quick'
-    plan = [('stars', 4 if q else 6), ('expr', 3 if q else 4), ('recovery', 4 if q else 5), ('numbers', 3 if q else 5), ('nul', 4 if q else 6)]
+    plan = [('stars', 4 if q else 7), ('expr', 3 if q else 5), ('recovery', 4 if q else 6), ('numbers', 3 if q else 6), ('nul', 4 if q else 7)]
     work = os.path.join(BUILD, 'run-C07-%s%s' % (tier, ('-%d' % os.getpid()) if _SCRATCH else '')); shutil.rmtree(work, ignore_errors=True); os.makedirs(work)
     jobs = [(g, n, c) for (g, n) in plan for c in ('g++', 'clang++')]
     from concurrent.futures import ThreadPoolExecutor
